@@ -168,12 +168,22 @@ MRemoveSNI ==
   /\ exts' = IF FixRemoveSNI THEN NoSNI(exts) ELSE exts
   /\ UNCHANGED <<cfgSNI, hello>>
 NewSuites(l, o) == CASE o.kind = "append" -> Append(l, o.v)
+                     [] o.kind = "keep" -> l                                                  \* the caller only inspects the list
+                     [] o.kind = "poke" -> IF Len(l) >= 2 THEN [l EXCEPT ![2] = o.v] ELSE l   \* one element assigned in place
                      [] o.kind = "droplast" -> IF l = <<>> THEN l ELSE SubSeq(l, 1, Len(l) - 1)
                      [] OTHER -> o.list
+TwoConn == "BBuild" \in Kinds
+SuiteChoices == IF TwoConn THEN {[kind |-> "keep", v |-> 0, list |-> <<>>], [kind |-> "poke", v |-> 52392, list |-> <<>>]} ELSE {SuiteOp(K)}
 MEditSuites ==
-  /\ Mut([op |-> "EditSuites"] @@ SuiteOp(K))
-  /\ EditSuites(NewSuites(hello.suites, SuiteOp(K)))
-  /\ hello' = [hello EXCEPT !.suites = NewSuites(hello.suites, SuiteOp(K))] /\ UNCHANGED <<cfgSNI, exts>>
+  \E so \in SuiteChoices :
+  /\ Mut([op |-> "EditSuites"] @@ so)
+  /\ EditSuites(NewSuites(hello.suites, so))
+  /\ hello' = [hello EXCEPT !.suites = NewSuites(hello.suites, so)] /\ UNCHANGED <<cfgSNI, exts>>
+\* a second connection B: created from the same spec value ("spec") or from a sibling spec sharing the cipher-suite, curves,
+\* ALPN and versions slices ("slices"), preset applied and built; or one of its cipher suites assigned in place
+MBBuild == \E sh \in {"spec", "slices"} :
+             Mut([op |-> "BBuild", share |-> sh]) /\ OtherConnection /\ UNCHANGED <<cfgSNI, hello, exts>>
+MBPoke == Mut([op |-> "BPoke", v |-> 49171]) /\ OtherConnection /\ UNCHANGED <<cfgSNI, hello, exts>>
 MEditSessionId ==
   /\ Mut([op |-> "EditSessionId", sid |-> SidV(K)])
   /\ EditSessionId(SidV(K))
@@ -263,7 +273,8 @@ Next == \/ MApplyPreset \/ Pre \/ Post
                      \/ ("RemoveSNI" \in Kinds /\ MRemoveSNI) \/ ("EditSuites" \in Kinds /\ MEditSuites)
                      \/ ("EditSessionId" \in Kinds /\ MEditSessionId) \/ ("ExtInsert" \in Kinds /\ MExtInsert)
                      \/ ("ExtRemove" \in Kinds /\ MExtRemove) \/ ("ExtALPN" \in Kinds /\ MExtALPN)
-                     \/ ("ExtSNIField" \in Kinds /\ MExtSNIField) \/ ("Break" \in Kinds /\ MBreak) \/ ("InPlace" \in Kinds /\ MInPlace))
+                     \/ ("ExtSNIField" \in Kinds /\ MExtSNIField) \/ ("Break" \in Kinds /\ MBreak) \/ ("InPlace" \in Kinds /\ MInPlace)
+                     \/ ("BBuild" \in Kinds /\ MBBuild) \/ ("BPoke" \in Kinds /\ MBPoke))
         \/ MStart \/ MStartFails \/ MSendCH1 \/ MServerFirst \/ MSendCH2 \/ MRefuseRetry \/ MServerSecond \/ MFinish
 
 Terminal == phase \in {"done", "failed", "refused"}
